@@ -234,13 +234,16 @@ Proof. exact check_run_sound. Qed.
 Print Assumptions C19_check_run_sound.
 
 (* ---- the lock object across re-opens of the connection (Lock.v layer D) ------------------------ *)
-(* tie (ast, whole class bodies of BaseChannel + Channel / AsyncChannel, reachable or not): nothing but
-   `__init__` binds or deletes `channel_lock` — open(), close() ... leave the lock object alone *)
+(* tie (ast, whole class bodies of BaseChannel + Channel / AsyncChannel, reachable or not, AND every other
+   module of the package — drivers, factory, transports, ...: any `x.channel_lock = ...`, `del`, setattr /
+   delattr): nothing but the channel's `__init__` binds or deletes `channel_lock` — open(), close(),
+   Driver.commandeer() ... leave the lock object alone *)
 Theorem C19_gen_lock_identity : gen_lock_rebound_sync = false /\ gen_lock_rebound_async = false.
 Proof. exact (conj eq_refl eq_refl). Qed.
 Print Assumptions C19_gen_lock_identity.
 
-(* any number of callers, any number of re-opens (`channel.open()`, by anybody, at any time), failures
+(* any number of callers, any number of re-opens (`channel.open()`, by anybody, at any time) and other
+   steps of the connection's life outside a lock section (commandeer()), failures
    and retries, callers queued on the lock meanwhile: at most one caller holds the channel lock in
    every reachable configuration, and a transport event happens only while its caller is that holder *)
 Theorem C19_reopen_mutual_exclusion_sync : forall n tr cf,
